@@ -306,6 +306,28 @@ def _field_of_operand(rec, op, genp, depth=0):
     return None
 
 
+def _param_of_operand(rec, op, depth=0):
+    """index (1-based) of the parameter the operand is a plain copy / reference of, else None"""
+    if not (isinstance(op, list) and op and op[0] in ('c', 'm')) or depth > 4:
+        return None
+    loc, projs = op[1]
+    if any(isinstance(p, list) for p in projs):
+        return None
+    if 1 <= loc <= rec['argc']:
+        return loc
+    ds = [st[2] for b in rec['bb'] for st in b['s'] if st[0] == '=' and st[1][0] == loc and not st[1][1]]
+    if len(ds) != 1:
+        return None
+    rv = ds[0]
+    if rv[0] == 'use':
+        return _param_of_operand(rec, rv[1], depth + 1)
+    if rv[0] == 'ref' and not any(isinstance(p, list) for p in rv[1][1]):
+        return _param_of_operand(rec, ['c', [rv[1][0], []]], depth + 1)
+    if rv[0] == 'cast':
+        return _param_of_operand(rec, rv[2], depth + 1)
+    return None
+
+
 def _operand_is_some(rec, op, depth=0):
     """is the operand always a freshly built Option::Some(..)?"""
     if not (isinstance(op, list) and op and op[0] in ('c', 'm')):
@@ -349,6 +371,21 @@ def check_default_collapse(ctx, rule='optional-field-not-collapsed', genp=GENP, 
                     fo = _field_of_operand(rec, t[2][0], genp)
                     if fo:
                         hits.setdefault((fo[0], fo[1], fo[2]), []).append((dname, rec))
+                        continue
+                    # the optional value was handed to a helper as a parameter: the wire field is the argument at the helper's call sites
+                    pi = _param_of_operand(rec, t[2][0])
+                    if pi and '{closure' not in dname:
+                        for c in f.callers_of(dname):
+                            for j in range(len(f.fn_index.get(c, []))):
+                                crec = f.fn(c, j)
+                                if not crec or 'bb' not in crec:
+                                    continue
+                                for cb in crec['bb']:
+                                    ct = cb['t']
+                                    if ct[0] == 'call' and isinstance(ct[1], dict) and (ct[1].get('res') or ct[1].get('def')) == dname and len(ct[2]) >= pi:
+                                        fo = _field_of_operand(crec, ct[2][pi - 1], genp)
+                                        if fo:
+                                            hits.setdefault((fo[0], fo[1], fo[2]), []).append((dname, rec))
     n = 0
     for (msg, fld, fidx), where in sorted(hits.items()):
         n += 1
@@ -431,7 +468,9 @@ def encoder_reads(facts, root, enum_adt, follow=('datafusion_proto::', 'datafusi
                 own_method = any(c.startswith(p + '::') or c.startswith('<' + p + ' as ') for p in payloads if '::' in p)
                 if (c.startswith(follow) or own_method or (' as core::convert::From<' in c and 'datafusion' in c)) and c in facts.fn_index and c not in seen:
                     todo.append(c)
-                    depth[c] = depth[d] + 1
+                    # helper layers inside the proto crates cost nothing (extracting an arm into a helper must not hide what it reads);
+                    # only hops into the payload structs' own methods / conversions are bounded
+                    depth[c] = depth[d] + (0 if c.startswith(follow) else 1)
 
         def place(pl):
             cur = None
@@ -459,13 +498,13 @@ def encoder_reads(facts, root, enum_adt, follow=('datafusion_proto::', 'datafusi
     return anyread, vread, seen
 
 
-def check_encoder_reads(ctx, label, root, enum_adt, rule='encoder-reads-every-field', exempt=None, min_structs=0):
-    facts = ctx.facts
+def check_encoder_reads(ctx, label, root, enum_adt, rule='encoder-reads-every-field', exempt=None, min_structs=0, follow=None, per_variant=True, facts=None, what='wire'):
+    facts = facts or ctx.facts
     exempt = SRC_EXEMPT if exempt is None else exempt
     if facts.fn(root) is None or enum_adt not in facts.adts:
         ctx.lost(rule, root)
         return 0
-    anyread, vread, seen = encoder_reads(facts, root, enum_adt)
+    anyread, vread, seen = encoder_reads(facts, root, enum_adt, follow) if follow else encoder_reads(facts, root, enum_adt)
     ctx.analysed_fns.update(d for d in seen if '{closure' not in d)
     # payload structs and how many variants share each
     uses = {}
@@ -506,7 +545,9 @@ def check_encoder_reads(ctx, label, root, enum_adt, rule='encoder-reads-every-fi
             why = exempted(short, fname, fty)
             if fname in rd:
                 # a struct shared by several variants: each variant that reads the struct at all must read this field too
-                if len(vs) > 1:
+                # (only meaningful when the encoder reads the payload under the variant's own match arm; an encoder that hands the payload
+                #  to per-struct helper functions is judged per struct)
+                if len(vs) > 1 and per_variant:
                     for v in vs:
                         got = set(x for o, x in vread.get(v, ()) if o == t)
                         if got and fname not in got and not why:
